@@ -35,6 +35,7 @@ def visible(probes, host, name):
 
 def monitor_scripts(ctx, infile, implfile):
     sigs = set()
+    n_leftover = 0  # answers observed under standalone configurations with left-over sso.* settings
     with open(infile) as fi, open(implfile) as fo:
         for li, lo in zip(fi, fo):
             if not li.startswith(("cscript ", "cpscript ")):
@@ -86,12 +87,26 @@ def monitor_scripts(ctx, infile, implfile):
                         elif mp is not None:
                             if c["domain"] != "" or c["path"] != (mp or "/"):
                                 ctx.violation("c14-session-scope", "session cookie not scoped to the matching ingress path without Domain", case)
+                    # standalone mode, whatever else the configuration carries: the session cookie is host-only, also when it is
+                    # cleared and on requests outside every ingress path
+                    if not cfg.sso and kind == "session" and c["domain"] != "" and (c["maxage"] < 0 or mp is None):
+                        ctx.violation("c14-standalone-cookie-domain", "standalone mode: session cookie %s with a Domain attribute (%s)"
+                                      % ("cleared" if c["maxage"] < 0 else "set", c["domain"]), case)
                     # scopes under which this cookie was set and not yet cleared
                     if c["maxage"] >= 0:
                         last_set_path.setdefault(kind, set()).add((c["domain"], c["path"]))
                     else:
                         last_set_path.setdefault(kind, set()).discard((c["domain"], c["path"]))
                 # the browser's jar after the response
+                if not cfg.sso:
+                    # standalone mode, "without a Domain": the browser returns the session cookie to the instance's own hosts only
+                    ihosts = {h.lower() for (_, h, _, _) in cfg.ingress_parts()}
+                    abroad = sorted({("https" if p[0] else "http") + "://" + p[1] + p[2] for (p, cs) in r["probes"]
+                                     if p[1].lower() not in ihosts and any(n == cfg.name("session") for n, _ in cs)})
+                    if abroad:
+                        ctx.violation("c14-session-cookie-sent-to-other-host", "standalone mode: the browser sends the session cookie to a host that "
+                                      "is none of the instance's ingress hosts", dict(case, jar_sends_session_cookie_at=abroad))
+                    n_leftover += cfg.leftover() is not None
                 if it["ep"] == "C" and not px:
                     left = visible(r["probes"], sc.host, cfg.name("login"))
                     if left:
@@ -122,6 +137,9 @@ def monitor_scripts(ctx, infile, implfile):
                     if left:
                         ctx.violation("c14-logout-cookie-survives", "logout cookie still in the browser after the logout callback",
                                       dict(case, jar_still_sends_cookie_at=left))
+    ctx.extra["answers_under_standalone_with_leftover_sso_settings"] = n_leftover
+    if n_leftover == 0:
+        ctx.broken.append({"kind": "harness", "name": "cookies control: no history under a standalone configuration with left-over sso.* settings", "first": {}})
     return len(sigs)
 
 
@@ -166,6 +184,7 @@ def run(ctx):
     ctx.rule = ("url strings: exhaustive over {h,H,:,/,l,8,?,.,-} up to length 5 + scheme x separator x host x path grid + random bytes; "
                 "validation: secure x same-site x ingress pairs; MatchingPath: ingress-path sets x all request paths over {/,a,b,o,p} up to 5; "
                 "browser histories: every accepted configuration (secure x ingress sets incl. nested and multi-host x SSO x same-site x prefix x legacy) "
+                "+ standalone with left-over sso.* settings (sso.enabled=false with sso.domain with/without leading dot, session-cookie-name, mode server/proxy, server-url; jar probed at a sibling host under that domain) "
                 "x every endpoint x success and error paths x set/clear under every pair of ingress paths + random histories; "
                 "SSO deployments with both parties (real SSO proxy in front of the real SSO server router, shared store, one jar for the SSO domain): login at the server, every logout variant through the proxy and at the server, relayed error paths, random mixes; cookie names of pkg/cookie after main.go's configuration for prefix x SSO x session-cookie-name; "
                 "cookie jar: exhaustive single Set-Cookie over hosts x domains x paths x secure + random sequences with expiry; "
